@@ -1,6 +1,7 @@
 package diam
 
 import (
+	"github.com/fiorix/go-diameter/v4/diam/dict"
 	"math"
 	"net"
 	"time"
@@ -254,4 +255,55 @@ func zzC01_wire() {
 	vObserveBytes("out", out)
 	zzBytesEq(out, wire, "C01: a well-formed wire message that is read and then serialised reproduces its bytes exactly")
 	vReach("C01_wire")
+}
+
+// zzC01_embedded: the round trip on the embedded dictionaries, for the scoping of group members: a
+// credit-control answer (application 4) whose Failed-AVP -- a group the *base* application declares --
+// holds members only application 4 declares (CC-Request-Number, CC-Request-Type) next to a base member;
+// values symbolic. Read back, every member must carry its dictionary type and value, at its depth.
+func zzC01_embedded() {
+	m := NewMessage(CreditControl, 0, 4, vU32("hbh")|1, vU32("e2e")|1, dict.Default)
+	num, typ := vU32("reqnum"), vU32("reqtype")
+	inner := &GroupedAVP{AVP: []*AVP{
+		NewAVP(264, 0x40, 0, datatype.DiameterIdentity("h.example")),
+		NewAVP(415, 0x40, 0, datatype.Unsigned32(num)),
+		NewAVP(416, 0x40, 0, datatype.Enumerated(typ)),
+	}}
+	if zzFlag("nestedOnceMore") {
+		// the same members one level deeper: Failed-AVP holding a Subscription-Id-like application group
+		inner = &GroupedAVP{AVP: []*AVP{NewAVP(279, 0x40, 0, inner)}}
+	}
+	m.NewAVP(279, 0x40, 0, inner)
+	b, err := m.Serialize()
+	vAssume(err == nil)
+	back, rerr := ReadMessage(zzNewReader(b), dict.Default)
+	vAssert(rerr == nil && back != nil, "C01: a message built from valid values reads back")
+	if rerr != nil {
+		return
+	}
+	var check func(got, want *AVP)
+	check = func(got, want *AVP) {
+		vAssert(got.Code == want.Code && got.Flags == want.Flags && got.VendorID == want.VendorID, "C01: code, flags and vendor id survive")
+		wg, isGroup := want.Data.(*GroupedAVP)
+		if isGroup {
+			gg, ok := got.Data.(*GroupedAVP)
+			vAssert(ok && len(gg.AVP) == len(wg.AVP), "C01: nesting survives")
+			if ok && len(gg.AVP) == len(wg.AVP) {
+				for i := range wg.AVP {
+					check(gg.AVP[i], wg.AVP[i])
+				}
+			}
+			return
+		}
+		vAssert(got.Data.Type() == want.Data.Type(), "C01: every AVP, at every depth, reads back with the data type the message's application gives it")
+		zzBytesEq(got.Data.Serialize(), want.Data.Serialize(), "C01: typed value survives")
+	}
+	vAssert(len(back.AVP) == 1, "C01: AVP count survives")
+	if len(back.AVP) == 1 {
+		check(back.AVP[0], m.AVP[0])
+	}
+	b2, err2 := back.Serialize()
+	vAssert(err2 == nil, "C01: read-back message serialises")
+	zzBytesEq(b2, b, "C01: serialising again yields identical bytes")
+	vReach("C01_embedded")
 }
